@@ -100,6 +100,8 @@ Definition py_value (e : benv) (env : arg_env) (a : assignment) : outcome gval :
                  match vals with
                  | [] => GOk acc
                  | (it :: _, AValue arg c None) :: r =>
+                     (* a constant field is not a parameter of the generated __init__: TypeError *)
+                     if is_concrete_scalar (pi_type it) then GPanic else
                      dob v <- py_simple_value env arg c ;
                      dob acc' <- set_struct_field acc (pi_id it) v ;
                      go r acc'
